@@ -141,6 +141,9 @@ class Impl:
             return "bad-op"
         return handler(ts[1:])
 
+    def cmd_mark(self, ts):
+        return "ok"
+
     def cmd_new(self, ts):
         self.__init__(self.filter_style)
         return "ok"
